@@ -69,8 +69,8 @@ CONFIGS = {
     'quick': [
         ('T2', dict(svc='{"s1", "s2"}', scoped='{"b"}', mod=3, workers=5)),
         ('I3', dict(tags='MCTags1', T=3, S=2, svc='{"s1", "s2"}', plan='I', mod=1, workers=1)),
-        ('D2', dict(tags='MCTags2', durs='{1, 4, 5, 8}', plan='D', mod=2, workers=3)),
-        ('D2v', dict(tags='MCTags2', durs='{1, 4, 5, 8}', plan='D', v2='TRUE', mod=2, workers=3)),
+        ('D2', dict(tags='MCTags2', durs='{1, 4, 5, 8}', plan='D', mod=2, workers=4)),
+        ('D2v', dict(tags='MCTags2', durs='{4, 5, 8}', plan='D', v2='TRUE', mod=1, workers=2)),
         ('W2', dict(tags='MCTags2', ticks='{0, 2, 3, 4}', plan='W', mod=3, workers=3)),
         ('R2', dict(tags='MCTags1', svc='{"s1", "s2"}', par='free', plan='W', mod=1, workers=2)),
         ('W3v', dict(tags='MCTags2', T=3, S=1, ticks='{1, 2, 4}', durs='{4, 8}', plan='W', v2='TRUE', mod=1, workers=2)),
